@@ -90,6 +90,16 @@ def corpus(rng, tier):
     return out
 
 
+def call_site(what):
+    """'panic: <message> @ <file>:<line>' -> '<file>: <message>' with numbers blanked; None for other failures"""
+    import re
+    m = re.match(r"panic: (.*) @ (\S+?):\d+\s*$", what.strip(), flags=re.S)
+    if not m:
+        return None
+    msg = re.sub(r"\d+", "N", m.group(1))[:160]
+    return f"panic in {os.path.relpath(m.group(2), vlib.REPO) if m.group(2).startswith('/') else m.group(2)}: {msg}"
+
+
 def to_events(rid, res):
     """call / return events of one text, as FrontendTrace reads them"""
     evs = []
@@ -176,7 +186,18 @@ def run(tier):
     for rid, f in fails.items():
         t = texts[rid]
         what = pins[rid]["what"] if rid in pins else f"{f['api']}: {f['what']} on text {t[:100]!r}"
-        chk.violation(what, {"text": t, "api": f["api"]}, key=pins[rid]["key"] if rid in pins else vlib.canon_key(t))
+        key = pins[rid]["key"] if rid in pins else vlib.canon_key(t)
+        site = call_site(f["what"])
+        if site and not chk.findings.is_known(key):
+            # a panic is identified by its call site (source file and message, without line numbers): one finding per
+            # site, whatever the text that reaches it; a panic at any other site is reported
+            skey = "site:" + vlib.canon_key(site)
+            if chk.findings.is_known(skey):
+                what = chk.findings.known[skey]["what"]
+            else:
+                what = f"{f['api']}: {site} - e.g. on text {t[:100]!r}"
+            key = skey
+        chk.violation(what, {"text": t, "api": f["api"], "site": site}, key=key)
     chk.cov["texts_exhaustive"] = nexh
     chk.cov["texts_corpus"] = len(texts) - nexh
     chk.cov["apis"] = APIS
